@@ -113,6 +113,9 @@ M = [
     ('C14', 'exportable-read-from-unsigned-area-back', 'pgpy/pgp.py', "        if self._signature.subpackets['h_ExportableCertification']:\n            return bool(next(iter(self._signature.subpackets['h_ExportableCertification'])))", "        if 'ExportableCertification' in self._signature.subpackets:\n            return bool(next(iter(self._signature.subpackets['ExportableCertification'])))"),
     ('C17', 'key-expiration-read-from-unsigned-area-back', 'pgpy/pgp.py', "        if self._signature.subpackets['h_KeyExpirationTime']:\n            return next(iter(self._signature.subpackets['h_KeyExpirationTime'])).expires", "        if 'KeyExpirationTime' in self._signature.subpackets:\n            return next(iter(self._signature.subpackets['KeyExpirationTime'])).expires"),
     ('C16', 'preference-presence-in-any-area-back', 'pgpy/pgp.py', "        if self._signature.subpackets['h_PreferredHashAlgorithms']:", "        if 'PreferredHashAlgorithms' in self._signature.subpackets:"),
+    ('C04', 'session-key-packets-without-data-handed-back', 'pgpy/pgp.py', "            if len(message._sessionkeys) > 0:\n", "            if False:\n"),
+    ('C10', 'armor-header-keeps-cr-back', 'pgpy/types.py', "(?P<value>.+?)\\r?$", "(?P<value>.+)$"),
+    ('C10', 'armor-header-greedy-key-back', 'pgpy/types.py', "'^(?P<key>.+?): ", "'^(?P<key>.+): "),
     ('C12', 'salt-remembered-from-first-derivation', 'pgpy/packet/fields.py', "            hsalt = bytes(self.salt)\n", "            hsalt = self.__dict__.setdefault('_salt_seen', bytes(self.salt))\n"),
     ('C16', 'key-flags-cached-on-first-use', 'pgpy/pgp.py', "            return {KeyFlags.Certify} | (user.selfsig.key_flags if user.selfsig else set())", "            return self.__dict__.setdefault('_flagcache', {KeyFlags.Certify} | (user.selfsig.key_flags if user.selfsig else set()))"),
     ('C16', 'enforcement-off-last-subkey-back', 'pgpy/decorators.py', "                    _key = key\n", "                    pass\n"),
